@@ -138,7 +138,9 @@ def gen_rotation(rng, big):
     days = [start]
     cur = start
     for _ in range(ndays):
-        cur = add_days(cur, rng.choice([1, 1, 1, 2, 7, 40]))
+        # 0: a rollover that re-opens the file of the same date (mlzlog rolls over every 86400 s: the 25-hour day at the end
+        # of daylight saving time, or a restart of the handler's timer)
+        cur = add_days(cur, rng.choice([1, 1, 1, 2, 7, 40, 0]))
         days.append(cur)
     return {'prefix': prefix, 'n': n, 'existing': existing, 'days': [list(x) for x in days]}
 
